@@ -22,23 +22,28 @@ abbrev Cubic (K : Type) := Pt K × Pt K × Pt K × Pt K
 def Quad.pos (q : Quad K) (s : K) : Pt K := quadraticBezierPos q.1 q.2.1 q.2.2 s
 def Cubic.pos (q : Cubic K) (s : K) : Pt K := cubicBezierPos q.1 q.2.1 q.2.2.1 q.2.2.2 s
 
-/-- the loop of the QuadToCmd case of SplitAt (path.go:1563-1575) for the parameters `ts` returned by
-`invL`: `tsub := (t - t0)/(1 - t0)`, split the remainder, emit the left part, keep the right part.
-Result: the emitted pieces and the final remainder. -/
-def quadCuts (r : Quad K) (t0 : K) : List K → List (Quad K) × Quad K
-  | [] => ([], r)
-  | t :: ts =>
-    let tsub := (t - t0) / (1 - t0)
-    let rest := quadCuts (quadR r.1 r.2.1 r.2.2 tsub) t ts
-    (quadL r.1 r.2.1 r.2.2 tsub :: rest.1, rest.2)
+/-- the loop of the QuadToCmd case of SplitAt (path.go:1563-1575): `Canvas.C09.cutsGen` with the
+generated `quadraticBezierSplit` (left part = outputs 1-3, right part = outputs 4-6) -/
+def quadCuts (r : Quad K) (t0 : K) (ts : List K) : List (Quad K) × Quad K :=
+  Canvas.C09.cutsGen (· - ·) (· / ·) 1 (fun (q : Quad K) t => quadL q.1 q.2.1 q.2.2 t)
+    (fun (q : Quad K) t => quadR q.1 q.2.1 q.2.2 t) r t0 ts
 
 /-- the loop of the CubeToCmd case (path.go:1598-1610) -/
-def cubeCuts (r : Cubic K) (t0 : K) : List K → List (Cubic K) × Cubic K
-  | [] => ([], r)
-  | t :: ts =>
-    let tsub := (t - t0) / (1 - t0)
-    let rest := cubeCuts (cubR r.1 r.2.1 r.2.2.1 r.2.2.2 tsub) t ts
-    (cubL r.1 r.2.1 r.2.2.1 r.2.2.2 tsub :: rest.1, rest.2)
+def cubeCuts (r : Cubic K) (t0 : K) (ts : List K) : List (Cubic K) × Cubic K :=
+  Canvas.C09.cutsGen (· - ·) (· / ·) 1 (fun (q : Cubic K) t => cubL q.1 q.2.1 q.2.2.1 q.2.2.2 t)
+    (fun (q : Cubic K) t => cubR q.1 q.2.1 q.2.2.1 q.2.2.2 t) r t0 ts
+
+theorem quadCuts_cons (r : Quad K) (t0 t : K) (ts : List K) :
+    quadCuts r t0 (t :: ts) =
+      (quadL r.1 r.2.1 r.2.2 ((t - t0) / (1 - t0)) ::
+          (quadCuts (quadR r.1 r.2.1 r.2.2 ((t - t0) / (1 - t0))) t ts).1,
+        (quadCuts (quadR r.1 r.2.1 r.2.2 ((t - t0) / (1 - t0))) t ts).2) := rfl
+
+theorem cubeCuts_cons (r : Cubic K) (t0 t : K) (ts : List K) :
+    cubeCuts r t0 (t :: ts) =
+      (cubL r.1 r.2.1 r.2.2.1 r.2.2.2 ((t - t0) / (1 - t0)) ::
+          (cubeCuts (cubR r.1 r.2.1 r.2.2.1 r.2.2.2 ((t - t0) / (1 - t0))) t ts).1,
+        (cubeCuts (cubR r.1 r.2.1 r.2.2.1 r.2.2.2 ((t - t0) / (1 - t0))) t ts).2) := rfl
 
 /-- the loop of the LineToCmd case (path.go:1541-1551): every cut is interpolated on the whole segment -/
 def lineCuts (a b : Pt K) (prev : Pt K) : List K → List (Pt K × Pt K) × (Pt K × Pt K)
@@ -75,7 +80,8 @@ theorem quadCuts_ok (f : K → Pt K) (ts : List K) : ∀ (t0 : K) (r : Quad K), 
     obtain ⟨h1, hok'⟩ := hok
     have hne : (1 - t0) ≠ 0 := sub_ne_zero.mpr (Ne.symm h1)
     have hk : (1 - t0) * ((t - t0) / (1 - t0)) = t - t0 := by field_simp
-    simp only [quadCuts, piecesOK, lastCut]
+    rw [quadCuts_cons]
+    simp only [piecesOK, lastCut]
     refine ⟨⟨?_, (ih t _ hok' ?_).1⟩, (ih t _ hok' ?_).2⟩
     · intro s
       have := quad_left r.1 r.2.1 r.2.2 ((t - t0) / (1 - t0)) s
@@ -107,7 +113,8 @@ theorem cubeCuts_ok (f : K → Pt K) (ts : List K) : ∀ (t0 : K) (r : Cubic K),
     obtain ⟨h1, hok'⟩ := hok
     have hne : (1 - t0) ≠ 0 := sub_ne_zero.mpr (Ne.symm h1)
     have hk : (1 - t0) * ((t - t0) / (1 - t0)) = t - t0 := by field_simp
-    simp only [cubeCuts, piecesOK, lastCut]
+    rw [cubeCuts_cons]
+    simp only [piecesOK, lastCut]
     refine ⟨⟨?_, (ih t _ hok' ?_).1⟩, (ih t _ hok' ?_).2⟩
     · intro s
       have := cub_left r.1 r.2.1 r.2.2.1 r.2.2.2 ((t - t0) / (1 - t0)) s
